@@ -80,7 +80,15 @@ def run (args : List Str) : String × String × String :=
   match args with
   | [c] =>
     -- `first_real_response`/`extension_restarts`: once an extension is taken, a response inside it is returned
-    if c = str "slowcb" then ("slowcb lost-after-extension=0", "slowcb lost-after-extension=0", "slowcb") else ("bad-op", "-", "bad")
+    if c = str "slowcb" then ("slowcb lost-after-extension=0", "slowcb lost-after-extension=0", "slowcb")
+    else if c = str "slowsilent" then
+      -- `extension_restarts`: the new deadline is the time of the pre-response plus the announced
+      -- duration, whatever the callbacks do afterwards; silence until then is the timeout error
+      let r := sendRequest ⟨true, true, true, 5000⟩ [(0, b!"timeout:\"300\"")]
+      let out := "slowsilent " ++ (match r.outcome with | .timeout => "system.timeout" | .internalError => "system.internalError" | .response _ => "response") ++
+        " with-the-announced-deadline"
+      (out, out, "slowsilent")
+    else ("bad-op", "-", "bad")
   | [c, name] => if c = str "natsend" then runNat (Str.show name) else ("bad-op", "-", "bad")
   | c :: ma :: su :: pu :: to :: _n :: rest =>
     if c ≠ str "send" then ("bad-op", "-", "bad") else
